@@ -74,8 +74,10 @@ var props = map[string]propSpec{
 		{Pkg: "registration", Fn: "VerifC06Tamper", Validate: 8, MustReach: []string{"enrolled", "refused"}},
 	}, Assumptions: with(), Explanation: "activation token create/use/re-use from SSA"},
 	"C07": {Harnesses: []harnessSpec{
-		{Pkg: "protocol", Fn: "VerifC07RogueServer", Validate: 0},
-	}, Assumptions: with(), Explanation: "client-side handshake model against rogue servers"},
+		{Pkg: "protocol", Fn: "VerifC07RogueServer", Validate: 8, MustReach: []string{"connected", "refused"}, ShardBits: 2},
+		{Pkg: "protocol", Fn: "VerifC07OwnServer", Validate: 8, MustReach: []string{"end"}},
+	}, Assumptions: with("client-side TLS handshake contract model (DESIGN 3.5): with InsecureSkipVerify the only guards are VerifyConnection and the server's proof of possession of its leaf key; native twin: a real crypto/tls server (vf.RogueServerConn)", "net.Dialer, real sockets and the pending-authorization path of protocol.Dial (attemptFetch) are outside this check"),
+		Explanation: "real ClientConfigs (nonce, signing, ALPN assembly, chain filtering) and its VerifyConnection / GetClientCertificate callbacks against rogue servers (stale certificate for another nonce, foreign root, self-signed, another node's certificate; with or without the leaf key) for each configuration and dial option set; and against the node's own server when only one of its two roots survives"},
 	"C08": {Harnesses: []harnessSpec{
 		{Pkg: "rotation", Fn: "VerifC08Rotate", Validate: 8, MustReach: []string{"nothing", "promote", "remint", "startover"}},
 	}, Assumptions: with("clock assumption: one rotation call takes < 100 ms and ends before the promoted root expires"), Explanation: "one RotateRootCertificates call from arbitrary stored windows"},
